@@ -1,9 +1,19 @@
+mod c30ops;
 mod core;
 mod exec;
 mod gen;
 mod pipeline;
 mod props;
 mod sched;
+mod simalloc;
+
+/// `c30ops.rs` is shared with the Miri crate, where the PRNG module sits at the crate root
+mod rng {
+    pub use crate::core::rng::*;
+}
+
+#[global_allocator]
+static GLOBAL: simalloc::SimAlloc = simalloc::SimAlloc;
 
 fn main() {
     std::process::exit(core::batch::main_entry());
